@@ -7,18 +7,18 @@ ID = "C11"
 COQ_PROPS = "Props/C11.v"
 THEOREMS = ["C11_spacing_tol", "C11_congruent_tol", "C11_iff", "C11_refuse", "C11_queries_refuse_together",
             "C11_empty_refused", "C11_uneven_positions_refused", "C11_count_not_factoring_refused",
-            "C11_uneven_spacing_refused", "C11_uneven_vectors_refused",
+            "C11_uneven_spacing_refused", "C11_uneven_vectors_refused", "C11_volumes_not_factoring_refused",
             "C11_regular_grid_accepted", "C11_add", "C11_add_transactional"]
 ALLOWED_AXIOMS = []
 RULE = ("synthetic in-memory DICOM series: S<=4 x T<=3 x V<=3 grids (thorough: S<=6, T<=4) in 7 orientations "
         "(axial, in-plane rotation, sagittal, coronal, two 3-4-5 obliques, one 2-3-6 double oblique) x both slice "
         "directions; explicit time / vector / both orderings (plain key, DicomOrdering with abs_ordering, staggered time "
         "values that straddle volume boundaries) or guessed key with decoy keys; per-file BitsStored / "
-        "PixelRepresentation / pixel range / AcquisitionTime presence varied; x 26 defect classes (none, drop 1 / k "
+        "PixelRepresentation / pixel range / AcquisitionTime presence varied; x 27 defect classes (none, drop 1 / k "
         "files, drop a volume, drop a slice position, duplicate, misfiled duplicate, tie straddling a volume "
         "boundary, irregular gap 0.8..25 %, Rows / Columns +1, PixelSpacing and orientation perturbed below / above "
         "5e-5, no pixel data, colliding file, missing ordering key, extra slice position, vector value moved for a "
-        "whole volume, files moved between vector components so that one volume-sized chunk straddles two vector "
+        "whole volume, vector values on unequal numbers of whole volumes (n_vols mod n_vec != 0 with S mod n_vec = 0 and != 0), files moved between vector components so that one volume-sized chunk straddles two vector "
         "values, positions swapped between volumes, ordinate not in abs_ordering) x random add order x random order "
         "of the four queries; a case is non-trivial when at least one add is refused, or a query raises, or the "
         "stack has more than one volume")
@@ -66,6 +66,8 @@ def gen_cases(rng, tier):
                 cfg['T'] = max(cfg['T'], 2)
             if cfg['time_order'].get('abs') is not None:
                 cfg['time_order'] = {'key': cfg['time_order']['key'], 'abs': None}
+        if defect == 'vol_count':
+            cfg = L.vol_count_config(rng, tier)
         if defect == 'pos_swap':
             cfg = L.rand_config(rng, tier, want=rng.choice(['time', 'timevec']))
             cfg['S'] = max(cfg['S'], rng.choice([2, 3]))
@@ -150,13 +152,19 @@ def oracle(case, obs):
     for op, o in qs:
         if g is None:
             if o['r'] == 'ok':
-                return 'files do not tile a complete grid but %s succeeded (shape %s)' % (op[0], o.get('shape'))
+                return 'files do not tile a complete grid but %s succeeded (shape %s, %d files accepted)' % (
+                    op[0], o.get('shape'), len(acc))
             if o['r'] != 'EInvalidStack':
                 return 'incomplete grid: %s raised %s instead of InvalidStackError' % (op[0], o['r'])
         else:
             if o['r'] != 'ok':
                 return 'complete %dx%dx%d grid rejected by %s with %s' % (g[0], g[1], g[2], op[0], o['r'])
             if o['shape'] is not None:
+                nout = 1
+                for x in o['shape'][2:]:
+                    nout *= x
+                if nout != len(acc):
+                    return 'output holds %d files, %d were accepted' % (nout, len(acc))
                 S, T, V = g
                 want = [acc[0]['rows'], acc[0]['cols'], S, T, V]
                 if V == 1:
